@@ -7,6 +7,7 @@ import (
 	"errors"
 	"fmt"
 	"log"
+	"strings"
 
 	bls12381 "github.com/corestario/kyber/pairing/bls12381"
 
@@ -61,6 +62,9 @@ func (am *Machine) loadBaseSeed() error {
 }
 
 func (am *Machine) SetBaseSeed(mnemonic string) error {
+	// the words are what the operator wrote down: the validation below splits on any white space,
+	// so the seed must not depend on how the words were spaced when they were typed in
+	mnemonic = strings.Join(strings.Fields(mnemonic), " ")
 	_, err := bip39.EntropyFromMnemonic(mnemonic)
 	if err != nil {
 		return fmt.Errorf("failed to validate mnemonic: %w", err)
